@@ -115,6 +115,13 @@ func (r *Run) Report(v Violation) {
 	if v.Engine == "" {
 		v.Engine = r.Engine
 	}
+	if len(v.What) > 1500 {
+		v.What = v.What[:700] + " ...[" + strconv.Itoa(len(v.What)-1400) + " bytes]... " + v.What[len(v.What)-700:]
+	}
+	if len(v.Key) > 400 {
+		h := sha256.Sum256([]byte(v.Key))
+		v.Key = v.Key[:200] + "...#" + hex.EncodeToString(h[:8])
+	}
 	id := v.Key + "\x00" + v.Class
 	if r.seen[id] {
 		return
